@@ -42,7 +42,7 @@ fn hook(name: &'static str) {
     }
     if let Some(id) = AGENT.with(|a| a.get()) {
         match name {
-            "write.begin" | "rotate.begin" | "ingest.begin" => {}
+            "write.begin" | "rotate.begin" | "ingest.begin" | "write.stall" => {}
             "snapshot.loaded" if !IN_SNAP.with(|s| s.get()) => {}
             _ => park(id, name),
         }
